@@ -116,6 +116,10 @@ HOOK_COMMITS = ["541145e"]
 NOT_YET = {}
 
 INFO = {
+    "C06": dict(technique="runtime differential monitor under mpiexec (every rank vs its own single-rank single-thread reference, eigen-data hashes across ranks), watchdog + hook-event-log hang decision, ThreadSanitizer+Archer on the OpenMP table path",
+                level_text="The full workflow (distributed Hamiltonian, TwoParticleGF::compute, TwoParticleGFContainer::computeAll split and unsplit, with and without frequency tables and term purging) is executed for several rank counts, thread counts and injected dispatcher delays; every rank compares what the interface returns to it with a reference computed by itself on MPI_COMM_SELF; the OpenMP loop is additionally run under TSan with 8 threads; held on the sampled schedules only.",
+                level_note="Schedules are sampled; the reference uses the same library on one rank (its correctness is C01-C03); OpenMPI/Boost.MPI trusted; TSan build uses clang+libomp+Archer.",
+                design_ref="DESIGN.md section 3, C06"),
     "C17": dict(technique="sanitizers as the oracle: every workload of the other properties plus boundary probes executed by ASan+UBSan builds with Eigen precondition checks (real and complex), valgrind memcheck in the thorough tier; report blocks keyed by tool, kind and innermost library frame",
                 level_text="The real library, rebuilt from the working tree with AddressSanitizer, UndefinedBehaviorSanitizer and Eigen's precondition checks switched on, executes the generated workloads of all other checks (index chasing on mismatching sparsity patterns, empty frequency lists, 1x1 blocks, heterogeneous lattices, boundary state labels); any report whose innermost frame is library code is a violation; memcheck covers uninitialised reads; this is 'no report on these executions', not memory safety.",
                 level_note="Red-zone tools miss non-adjacent and intra-object overflows; only reached code is observed; leaks are not part of the property and are not counted; MSan is not used.",
@@ -214,7 +218,12 @@ def _c17(tier, seed):
     return c17.run(tier, seed)
 
 
-SPECIAL = {"C16": _c16, "C17": _c17}
+def _c06(tier, seed):
+    from . import c06
+    return c06.run(tier, seed)
+
+
+SPECIAL = {"C06": _c06, "C16": _c16, "C17": _c17}
 
 
 def run(pid, tier, seed):
